@@ -946,6 +946,7 @@ def _counter_counts(P, names, g, gb, const_left):
 def _stack_need(P, R, names):
     from sa import stacksizes
     short = tuple(sorted(n.split("::")[-1] for n in names))
+    short_named = tuple(x for x in short if not x.startswith("{closure"))     # reviewed bounds are keyed by the named functions
     try:
         sizes = stacksizes.load()
     except Broken as e:
@@ -959,8 +960,9 @@ def _stack_need(P, R, names):
     g = _depth_guard(P, names)
     if g:
         depth, why = g[0], "depth guard `<= %d` in %s (line %d)" % (g[0] - 1, g[1].short_name, g[2])
-    elif short in REVIEWED_DEPTH:
-        depth, why = REVIEWED_DEPTH[short][0], "reviewed: " + REVIEWED_DEPTH[short][1]
+    elif short in REVIEWED_DEPTH or short_named in REVIEWED_DEPTH:
+        rd = REVIEWED_DEPTH.get(short) or REVIEWED_DEPTH[short_named]
+        depth, why = rd[0], "reviewed: " + rd[1]
     else:
         depth, why = INPUT_MAX, "no depth guard: one level per input byte, input up to %d bytes" % INPUT_MAX
     need = depth * frames
